@@ -55,7 +55,7 @@ def run(run, h):
 def establish_substitutions(run, h, pts, batch, rng, M, M2):
     cid = small_cid(rng)
     cb, mb = rng.choice([(10, 1000), (2 ** 63 - 2, 1), (rng.randrange(1, 2 ** 62), rng.randrange(1, 2 ** 62))])
-    ctx = rng.randbytes(32)
+    ctx = rng.randbytes(40)      # not 32 bytes: so that "the 32-byte digest of this transcript" is a different kind of input
     e = establish_request(h, M, cid, cb, mb, ctx, [rand_nz(rng) for _ in range(12)])
     base = merchant_init(h, M, cid, cb, mb, e["proof_hex"], ctx, u=rand_nz(rng))
     case0 = {"level": "establish", "cid": cid.hex(), "cb": cb, "mb": mb, "ctx": ctx.hex()}
@@ -75,8 +75,11 @@ def establish_substitutions(run, h, pts, batch, rng, M, M2):
             ("cb+1", (M, cid, cb + 1, mb, ctx)), ("cb-1", (M, cid, cb - 1, mb, ctx)),
             ("mb+1", (M, cid, cb, mb + 1, ctx)), ("mb-1", (M, cid, cb, mb - 1, ctx)),
             ("swap_balances", (M, cid, mb, cb, ctx)),
-            ("ctx_fresh", (M, cid, cb, mb, rng.randbytes(32))), ("ctx_empty", (M, cid, cb, mb, b""))]
-    for i in (range(32) if run.tier == "thorough" else rng.sample(range(32), 4)):
+            ("ctx_fresh", (M, cid, cb, mb, rng.randbytes(32))), ("ctx_empty", (M, cid, cb, mb, b"")),
+            # the context whose transcript is the 32-byte digest of this session's transcript (and the reverse direction below)
+            ("ctx_is_digest_of_ctx", (M, cid, cb, mb, sha3(ctx))), ("ctx_truncated", (M, cid, cb, mb, ctx[:31])),
+            ("ctx_extended", (M, cid, cb, mb, ctx + b"\x00"))]
+    for i in (range(len(ctx)) if run.tier == "thorough" else rng.sample(range(len(ctx)), 4)):
         subs.append(("ctx_byte", (M, cid, cb, mb, ctx[:i] + bytes([ctx[i] ^ 0x80]) + ctx[i + 1:])))
     for name, (Mx, cid_, cb_, mb_, ctx_) in subs:
         if not (0 <= cb_ <= 2 ** 63 - 1 and 0 <= mb_ <= 2 ** 63 - 1) or (cb_, mb_) == (cb, mb) and name == "swap_balances":
@@ -100,7 +103,7 @@ def pay_substitutions(run, h, pts, batch, rng, M, M2, Mrp, Mrev):
     if not run.check_monitor("honest_proof_accepted_for_its_own_tuple", est["ok"], {"level": "establish-for-pay"}):
         return
     amt = rng.choice([1, -1, 0, 5])
-    ctx = rng.randbytes(32)
+    ctx = rng.randbytes(33)
     h.rng(rng.randrange(2 ** 31))
     t = h.call("ready_start", est["ready"], amt, hx(ctx), M.cconfig)
     nonce, proof = unsc(t[2]), t[3]
@@ -118,8 +121,9 @@ def pay_substitutions(run, h, pts, batch, rng, M, M2, Mrp, Mrev):
             ("amount+1", (M.handle, amt + 1, nonce, ctx)), ("amount-1", (M.handle, amt - 1, nonce, ctx)),
             ("amount_negated", (M.handle, -amt if amt else 2, nonce, ctx)),
             ("amount_fresh", (M.handle, rng.randrange(-2 ** 62, 2 ** 62), nonce, ctx)),
-            ("ctx_fresh", (M.handle, amt, nonce, rng.randbytes(32)))]
-    for i in (range(32) if run.tier == "thorough" else rng.sample(range(32), 3)):
+            ("ctx_fresh", (M.handle, amt, nonce, rng.randbytes(32))), ("ctx_is_digest_of_ctx", (M.handle, amt, nonce, sha3(ctx))),
+            ("ctx_truncated", (M.handle, amt, nonce, ctx[:32]))]
+    for i in (range(len(ctx)) if run.tier == "thorough" else rng.sample(range(len(ctx)), 3)):
         subs.append(("ctx_byte", (M.handle, amt, nonce, ctx[:i] + bytes([ctx[i] ^ 1]) + ctx[i + 1:])))
     for name, (hd, a_, n_, c_) in subs:
         if n_ == CLOSE:
